@@ -178,6 +178,24 @@ check('C07',
       'machine-checked proof in Coq (Flocq) about a bit-exact binary64 model + bit-for-bit correspondence run (vm_compute) + exact-rational monitor',
       'DESIGN.md 5 C07')
 
+check('C15',
+      'Coq theorems (Props/C15.v). Ordering (Flocq, bit-exact binary64 model): the comparison branch\'s diff = (int1-int2)+(frac1-frac2) '
+      'has exactly the sign of the exact difference whenever two normalised phases with counts up to 2^52 are equal or at least 2^-53 '
+      'cycles apart, hence all six operators of the model decide the exact order (C15_comparisons). Parsing (exact arithmetic, '
+      'axiom-free): for every digit string and every exponent the digit shuffling of _parse_string preserves the decimal value '
+      '(count + fraction = digits * 10^e) and the count is integral whenever the exponent is absorbed. PARTIAL: argmin / argmax / argsort / '
+      'min / max / ptp / sort (Model/PhaseOrd.v), the float-level parser and from_string, and to_string.do_format incl. CPython\'s '
+      'float(str), repr(float) and fixed-point formatting (exact-arithmetic models in Model/DecStr.v) are tied to the code by the '
+      'correspondence run - every case evaluated by vm_compute and compared index for index, bit for bit, character for character - and '
+      'decided by the exact-rational monitor (order of exact values; |parsed - decimal value| <= 2^-52; printed string = exact value '
+      'rounded to the digits shown; from_string(to_string(p)) = p; a real string never gives an imaginary phase).',
+      'Trusted: Coq kernel, stdlib FloatAxioms + real axioms through Flocq; CPython float()/repr()/format and 10**-k as modelled (validated '
+      'on every case). Phases closer than 2^-53 but unequal are below the format\'s resolution (not sampled). Known finding D16: rendered '
+      'digits are those of the binary64 fraction (<= 1e-16 off at >= 16 decimals or next to a rounding tie). np.sort(phase) / np.ptp(phase) '
+      'function forms are not Phase methods and are not sampled (np.sort raises TypeError; np.ptp reduces the single-double cycle).',
+      'machine-checked proof in Coq (Flocq comparison theorem; exact digit-shuffle theorem) + exact correspondence run (vm_compute) + exact-rational monitor',
+      'DESIGN.md 5 C15')
+
 ALL = [f'C{i:02d}' for i in range(1, 21)]
 
 def main():
